@@ -403,6 +403,10 @@ class Broadcast(Contract):
         "0d->x0x1": ([], ["x0", "x1"]),
         "x0->x1x0x2": (["x0"], ["x1", "x0", "x2"]),
         "x2x0->x0x1x2": (["x2", "x0"], ["x0", "x1", "x2"]),
+        # the operand's own dimensions in another order: 3-cycles are where a permutation and its inverse differ
+        "x0x1x2->x2x0x1": (["x0", "x1", "x2"], ["x2", "x0", "x1"]),
+        "x0x1x2->x1x2x0": (["x0", "x1", "x2"], ["x1", "x2", "x0"]),
+        "x0x1x2->x0x2x1": (["x0", "x1", "x2"], ["x0", "x2", "x1"]),
     }
 
     def cases(self, tier):
